@@ -1655,3 +1655,507 @@ Theorem rep_kernel_of_tag (S : dfield) trials tests e0 u v :
   ev S (oiden (lookup key2_eqb ((u, SPlus), (v, SMinus)) (ints (split_bil cfg_repaired trials tests e0))))
   = ev S (piece_key trials tests ((u, SPlus), (v, SMinus)) (iden e0)).
 Proof. intros. apply split_bil_kernel_of_tag; auto. Qed.
+
+(* ================================================================== product spaces: the kernel of a face accumulates the same-side blocks *)
+(* E vanishes with the symbols of us (homogeneity of degree one needs it; additivity alone does not give it) *)
+Definition vanl (us : list rsym) (E : texpr) : Prop :=
+  forall S : dfield, ev S (zero_out (in_syms us) E) = f0 S.
+
+Section FacesMulti.
+  Variable S : dfield.
+  Add Field SF14 : (Fth S).
+  Notation "0" := (f0 S).
+  Infix "+" := (fadd S).
+  Notation fsum := (fsum S).
+  Notation fl := (fld S). Notation nr := (nrm S).
+
+  Variables (trials tests : list string) (E : texpr) (e : iex).
+  Hypothesis Je : jfree e = true.
+  Hypothesis Ie : iden e = E.
+  Let tr := rs_of trials.
+  Let te := rs_of tests.
+
+  (* one round (u, v) adds the block of the pair to the kernel of each face; the reversal of the
+     normal is applied to the new block only, BEFORE it is added to what the face has already *)
+  Lemma step_Vm a u v : In u trials -> In v tests ->
+    fields_on SMinus (piece trials tests SMinus SMinus E) = true ->
+    Vm S (step_bil e tr te a u v) = Vm S a + ev S (NN trials tests E (u, SMinus) (v, SMinus)).
+  Proof.
+    intros Hu Hv G. unfold Vm. rewrite step_bil_bm.
+    destruct (iden_n_mm e tr te u v Je) as [A1 J1].
+    rewrite (put_o_val S read_minus); auto using read_minus_add, tzero_read_minus.
+    rewrite A1, Ie.
+    change (ev S (read_minus ?t)) with (evw S fl nr (read_minus t)).
+    unfold rename2. rewrite evw_read_minus_ren. unfold tr, te.
+    fold (NN trials tests E (u, SMinus) (v, SMinus)).
+    rewrite (guard_NN S trials tests E SMinus); unfold ms; auto.
+    change (evw S fl nr ?t) with (ev S t). ring.
+  Qed.
+
+  Lemma step_Vp a u v : In u trials -> In v tests ->
+    fields_on SPlus (piece trials tests SPlus SPlus E) = true ->
+    Vp S (step_bil e tr te a u v) = Vp S a + ev S (NN trials tests E (u, SPlus) (v, SPlus)).
+  Proof.
+    intros Hu Hv G. unfold Vp. rewrite step_bil_bp.
+    destruct (iden_n_pp e tr te u v Je) as [A2 J2].
+    rewrite (put_o_val S read_plus); auto using read_plus_add, tzero_read_plus.
+    rewrite A2, Ie.
+    change (ev S (read_plus ?t)) with (evw S fl nr (read_plus t)).
+    unfold rename2. rewrite evw_read_plus_flip_ren. unfold tr, te.
+    fold (NN trials tests E (u, SPlus) (v, SPlus)).
+    rewrite (guard_NN S trials tests E SPlus); unfold ms; auto.
+    change (evw S fl nr ?t) with (ev S t). ring.
+  Qed.
+
+  Lemma fold2_sum (V : pieces -> F S) (g : string -> string -> F S) :
+    (forall a u v, In u trials -> In v tests -> V (step_bil e tr te a u v) = V a + g u v) ->
+    forall us a, (forall u, In u us -> In u trials) ->
+    V (fold_left (fun a u => fold_left (fun a v => step_bil e tr te a u v) tests a) us a)
+    = V a + fsum (map (fun u => fsum (map (g u) tests)) us).
+  Proof.
+    intros Hstep.
+    assert (Inner : forall u, In u trials -> forall vs a, (forall v, In v vs -> In v tests) ->
+              V (fold_left (fun a v => step_bil e tr te a u v) vs a) = V a + fsum (map (g u) vs)).
+    { intros u Hu. induction vs as [|v vs IH]; intros a Hin; simpl; [ring|].
+      rewrite IH; [|intros; apply Hin; now right]. rewrite Hstep; auto; [ring|]. apply Hin. now left. }
+    induction us as [|u us IH]; intros a Hin; simpl; [ring|].
+    rewrite IH; [|intros; apply Hin; now right]. rewrite Inner; auto; [ring|]. apply Hin. now left.
+  Qed.
+
+  (* the same-side blocks of the product space, pair by pair *)
+  Definition blocks (s : side) : F S :=
+    fsum (map (fun u => fsum (map (fun v => ev S (piece_key trials tests ((u, s), (v, s)) E)) tests)) trials).
+
+  Lemma blocks_NN s :
+    fsum (map (fun u => fsum (map (fun v => ev S (NN trials tests E (u, s) (v, s))) tests)) trials) = blocks s.
+  Proof.
+    unfold blocks. apply fsum_ext. intros u. apply fsum_ext. intros v.
+    apply (NN_piece_key S trials tests E ((u, s), (v, s))).
+  Qed.
+End FacesMulti.
+
+Theorem split_bil_bnd_minus_blocks (S : dfield) c trials tests e0 :
+  okc c e0 = true ->
+  fields_on SMinus (piece trials tests SMinus SMinus (iden e0)) = true ->
+  ev S (read_minus (oiden (bnd_minus (split_bil c trials tests e0)))) = blocks S trials tests (iden e0) SMinus.
+Proof.
+  intros Hok G. unfold split_bil.
+  pose proof (expand_jfree c e0 Hok) as J. pose proof (iden_expand c e0) as I.
+  pose proof (fold2_sum S trials tests (expand c e0) (Vm S)
+                (fun u v => ev S (NN trials tests (iden e0) (u, SMinus) (v, SMinus)))) as H.
+  unfold Vm in H. rewrite H; [| intros; apply (step_Vm S trials tests (iden e0)); auto | auto].
+  rewrite blocks_NN. simpl. change (ev S (read_minus (TZ 0))) with (f0 S). apply (Radd_0_l (F_R (Fth S))).
+Qed.
+
+Theorem split_bil_bnd_plus_blocks (S : dfield) c trials tests e0 :
+  okc c e0 = true ->
+  fields_on SPlus (piece trials tests SPlus SPlus (iden e0)) = true ->
+  ev S (read_plus (oiden (bnd_plus (split_bil c trials tests e0)))) = blocks S trials tests (iden e0) SPlus.
+Proof.
+  intros Hok G. unfold split_bil.
+  pose proof (expand_jfree c e0 Hok) as J. pose proof (iden_expand c e0) as I.
+  pose proof (fold2_sum S trials tests (expand c e0) (Vp S)
+                (fun u v => ev S (NN trials tests (iden e0) (u, SPlus) (v, SPlus)))) as H.
+  unfold Vp in H. rewrite H; [| intros; apply (step_Vp S trials tests (iden e0)); auto | auto].
+  rewrite blocks_NN. simpl. change (ev S (read_plus (TZ 0))) with (f0 S). apply (Radd_0_l (F_R (Fth S))).
+Qed.
+
+(* ------------------------------------------------ the blocks of one side together are the same-side piece *)
+Section SideSum.
+  Variable S : dfield.
+  Add Field SF15 : (Fth S).
+  Notation "0" := (f0 S).
+  Infix "+" := (fadd S).
+  Notation fsum := (fsum S).
+
+  Lemma in_syms_rs_of names f c s : In f names -> ms s -> in_syms (rs_of names) f c s = true.
+  Proof.
+    intros Hin Hs. unfold in_syms, inb. apply inb_rs_of; auto.
+    unfold mem. apply existsb_exists. exists f. split; auto. apply String.eqb_refl.
+  Qed.
+
+  (* E restricted to side s in the functions `names` = sum over w of E with only w^s kept *)
+  Lemma side_sum (names : list string) s E fl nr : ms s ->
+    addl (rs_of names) E -> vanl (rs_of names) E ->
+    evw S (fl_zero S (on_side names (other s)) fl) nr E
+    = fsum (map (fun w => evw S (fl_zero S (nulled (w, s) (rs_of names)) fl) nr E) names).
+  Proof.
+    intros Hs Ha Hv.
+    set (fl' := fl_zero S (on_side names (other s)) fl).
+    pose proof (Ha (upd_env S fl' nr)) as H. rewrite ev_upd_env in H. rewrite H. clear H.
+    transitivity (fsum (map (fun r => evw S (fl_zero S (nulled r (rs_of names)) fl') nr E) (rs_of names))).
+    { apply (fsum_ext S). intros r. rewrite ev_upd_env. apply evw_nullT. }
+    rewrite (fsum_rs_of S (fun r => evw S (fl_zero S (nulled r (rs_of names)) fl') nr E) names).
+    apply fsum_ext'. intros w Hw.
+    assert (Zero : evw S (fl_zero S (nulled (w, other s) (rs_of names)) fl') nr E = 0).
+    { pose proof (Hv (upd_env S fl nr)) as H0. rewrite ev_upd_env, evw_zero_out in H0.
+      change (f0 (upd_env S fl nr)) with 0 in H0. rewrite <- H0.
+      apply evw_ext; auto. intros f c s0. unfold fl_zero, fl', fl_zero.
+      destruct (in_syms (rs_of names) f c s0) eqn:Ein.
+      - destruct (nulled (w, other s) (rs_of names) f c s0) eqn:N; auto.
+        destruct (on_side names (other s) f c s0) eqn:O; auto.
+        (* in the symbols, not nulled: it is (w, other s) itself, which is on the other side *)
+        exfalso. unfold nulled, keep_only, in_syms in *. rewrite Ein in N. simpl in N.
+        apply negb_false_iff in N. apply rsym_eqb_true in N. inversion N; subst.
+        unfold on_side in O. rewrite side_eqb_refl, andb_true_r in O.
+        assert (mem w names = true) by (unfold mem; apply existsb_exists; exists w; split; auto; apply String.eqb_refl).
+        congruence.
+      - assert (N : nulled (w, other s) (rs_of names) f c s0 = false).
+        { unfold nulled, keep_only, in_syms in *. now rewrite Ein. }
+        assert (O : on_side names (other s) f c s0 = false).
+        { destruct (on_side names (other s) f c s0) eqn:O; auto.
+          unfold on_side in O. apply andb_prop in O. destruct O as [Om Os]. apply side_eqb_eq in Os. subst s0.
+          assert (X : existsb (rsym_eqb (f, other s)) (rs_of names) = true).
+          { apply inb_rs_of; auto. destruct Hs; subst; simpl; auto. }
+          unfold in_syms, inb in Ein. congruence. }
+        now rewrite N, O. }
+    assert (Keep : evw S (fl_zero S (nulled (w, s) (rs_of names)) fl') nr E
+                   = evw S (fl_zero S (nulled (w, s) (rs_of names)) fl) nr E).
+    { apply evw_ext; auto. intros f c s0. unfold fl_zero, fl', fl_zero.
+      destruct (nulled (w, s) (rs_of names) f c s0) eqn:N; auto.
+      destruct (on_side names (other s) f c s0) eqn:O; auto.
+      apply (nulled_includes names w s) in O; auto. congruence. }
+    destruct Hs; subst s; simpl other in *; rewrite Zero, Keep; ring.
+  Qed.
+End SideSum.
+
+Section FacePiece.
+  Variable S : dfield.
+  Add Field SF16 : (Fth S).
+  Infix "+" := (fadd S).
+  Notation fsum := (fsum S).
+
+  Variables (trials tests : list string) (E : texpr).
+  Hypothesis Atr : addl (rs_of trials) E.
+  Hypothesis Ate : addl (rs_of tests) E.
+  Hypothesis Vtr : vanl (rs_of trials) E.
+  Hypothesis Vte : vanl (rs_of tests) E.
+
+  Theorem blocks_are_piece s : ms s -> blocks S trials tests E s = ev S (piece trials tests s s E).
+  Proof.
+    intros Hs. symmetry. unfold piece.
+    change (ev S (zero_out ?a ?b)) with (evw S (fld S) (nrm S) (zero_out a b)).
+    rewrite !evw_zero_out.
+    rewrite (side_sum S trials s E _ (nrm S) Hs Atr Vtr).
+    unfold blocks. apply fsum_ext. intros u.
+    transitivity (evw S (fl_zero S (on_side tests (other s)) (fl_zero S (nulled (u, s) (rs_of trials)) (fld S))) (nrm S) E).
+    { apply evw_ext; auto. intros f c s0. unfold fl_zero.
+      destruct (nulled (u, s) (rs_of trials) f c s0), (on_side tests (other s) f c s0); reflexivity. }
+    rewrite (side_sum S tests s E _ (nrm S) Hs Ate Vte).
+    apply fsum_ext. intros v.
+    unfold piece_key. simpl fst. simpl snd. change (ev S ?t) with (evw S (fld S) (nrm S) t).
+    rewrite !evw_zero_out. apply evw_ext; auto. intros f c s0. unfold fl_zero.
+    destruct (nulled (v, s) (rs_of tests) f c s0), (nulled (u, s) (rs_of trials) f c s0); reflexivity.
+  Qed.
+End FacePiece.
+
+(* the kernel of each face of a product-space form is the same-side piece *)
+Theorem split_bil_faces_are_pieces (S : dfield) c trials tests e0 :
+  okc c e0 = true ->
+  addl (rs_of trials) (iden e0) -> addl (rs_of tests) (iden e0) ->
+  vanl (rs_of trials) (iden e0) -> vanl (rs_of tests) (iden e0) ->
+  (fields_on SMinus (piece trials tests SMinus SMinus (iden e0)) = true ->
+   ev S (read_minus (oiden (bnd_minus (split_bil c trials tests e0)))) = ev S (piece trials tests SMinus SMinus (iden e0))) /\
+  (fields_on SPlus (piece trials tests SPlus SPlus (iden e0)) = true ->
+   ev S (read_plus (oiden (bnd_plus (split_bil c trials tests e0)))) = ev S (piece trials tests SPlus SPlus (iden e0))).
+Proof.
+  intros Hok A1 A2 V1 V2. split; intros G.
+  - rewrite split_bil_bnd_minus_blocks; auto. apply blocks_are_piece; unfold ms; auto.
+  - rewrite split_bil_bnd_plus_blocks; auto. apply blocks_are_piece; unfold ms; auto.
+Qed.
+
+(* the degree-1 criterion also gives the vanishing *)
+Section CriterionV.
+  Variable S : dfield.
+  Add Field SF17 : (Fth S).
+  Notation "0" := (f0 S).
+  Infix "+" := (fadd S). Infix "*" := (fmul S). Infix "-" := (fsub S). Infix "/" := (fdiv S).
+  Notation "- x" := (fopp S x).
+
+  Lemma lin1_vanish Q fl nr t : lin1 Q t = true -> evw S (fl_zero S Q fl) nr t = 0.
+  Proof.
+    unfold evw. induction t; simpl; intros L; try discriminate.
+    - apply Z.eqb_eq in L. subst. reflexivity.
+    - destruct a; simpl in L; try discriminate. simpl. unfold fl_zero. rewrite L. apply iterD_zero_arg.
+    - apply andb_prop in L. destruct L as [L1 L2]. rewrite IHt1, IHt2; auto. ring.
+    - apply andb_prop in L. destruct L as [L1 L2]. rewrite IHt1, IHt2; auto. ring.
+    - apply orb_prop in L. destruct L as [L|L]; apply andb_prop in L; destruct L as [L1 L2].
+      + rewrite IHt1; auto. ring.
+      + rewrite IHt2; auto. ring.
+    - apply andb_prop in L. destruct L as [L1 L2]. rewrite IHt1; auto. rewrite (Fdiv_def (Fth S)). ring.
+    - rewrite IHt; auto. ring.
+  Qed.
+End CriterionV.
+
+Theorem lin1_vanl us E : lin1 (in_syms us) E = true -> vanl us E.
+Proof.
+  intros L S. change (ev S ?t) with (evw S (fld S) (nrm S) t). rewrite evw_zero_out. now apply lin1_vanish.
+Qed.
+
+(* ================================================================== linear forms over product spaces *)
+Section LinearMulti.
+  Variable S : dfield.
+  Add Field SF18 : (Fth S).
+  Notation "0" := (f0 S).
+  Infix "+" := (fadd S).
+  Notation fsum := (fsum S).
+  Notation fl := (fld S). Notation nr := (nrm S).
+
+  Variables (c : cfg) (tests : list string) (E : texpr) (e : iex).
+  Hypothesis Je : jfree e = true.
+  Hypothesis Ie : iden e = E.
+  Hypothesis Hflip : lin_flip c = true.
+  Let te := rs_of tests.
+
+  Lemma nullT_piece_lin_key r : ev S (nullT E r te) = ev S (piece_lin_key tests r E).
+  Proof.
+    unfold piece_lin_key. change (ev S ?t) with (evw S fl nr t). now rewrite evw_nullT, evw_zero_out.
+  Qed.
+
+  Lemma guard_lin s v : ms s -> In v tests -> fields_on s (piece_lin tests s E) = true ->
+    evw S (allto S s fl) nr (nullT E (v, s) te) = evw S fl nr (nullT E (v, s) te).
+  Proof.
+    intros Hs Hv G. rewrite !evw_nullT.
+    apply evw_agree. apply Forall_forall. intros a Ha. destruct a; simpl; auto.
+    unfold fl_zero, allto.
+    destruct (nulled (v, s) te f c0 s0) eqn:N1; auto.
+    unfold fields_on in G. rewrite forallb_forall in G.
+    assert (Hin : In (AFld lg f c0 s0 al) (atoms (piece_lin tests s E))).
+    { unfold piece_lin. apply atoms_amap_zero. split; auto. simpl.
+      destruct (on_side tests (other s) f c0 s0) eqn:O; auto.
+      apply (nulled_includes tests v s) in O; auto. fold te in O. congruence. }
+    specialize (G _ Hin). simpl in G. apply side_eqb_eq in G. now subst.
+  Qed.
+
+  Lemma step_lin_Vm a v : In v tests -> fields_on SMinus (piece_lin tests SMinus E) = true ->
+    Vm S (step_lin c e te a v) = Vm S a + ev S (nullT E (v, SMinus) te).
+  Proof.
+    intros Hv G. unfold Vm. rewrite step_lin_bm.
+    destruct (iden_l_m e te v Je) as [A J].
+    rewrite (put_o_val S read_minus); auto using read_minus_add, tzero_read_minus.
+    rewrite A, Ie. change (ev S (read_minus ?t)) with (evw S fl nr (read_minus t)).
+    unfold rename1. rewrite evw_read_minus_ren.
+    rewrite (guard_lin SMinus); unfold ms; auto.
+    change (evw S fl nr ?t) with (ev S t). ring.
+  Qed.
+
+  Lemma step_lin_Vp a v : In v tests -> fields_on SPlus (piece_lin tests SPlus E) = true ->
+    Vp S (step_lin c e te a v) = Vp S a + ev S (nullT E (v, SPlus) te).
+  Proof.
+    intros Hv G. unfold Vp. rewrite step_lin_bp.
+    destruct (iden_l_p c e te v Je) as [A J]. rewrite Hflip in A.
+    rewrite (put_o_val S read_plus); auto using read_plus_add, tzero_read_plus.
+    rewrite A, Ie. change (ev S (read_plus ?t)) with (evw S fl nr (read_plus t)).
+    unfold rename1. rewrite evw_read_plus_flip_ren.
+    rewrite (guard_lin SPlus); unfold ms; auto.
+    change (evw S fl nr ?t) with (ev S t). ring.
+  Qed.
+
+  Lemma fold_lin_sum (V : pieces -> F S) (g : string -> F S) :
+    (forall a v, In v tests -> V (step_lin c e te a v) = V a + g v) ->
+    forall vs a, (forall v, In v vs -> In v tests) ->
+    V (fold_left (fun a v => step_lin c e te a v) vs a) = V a + fsum (map g vs).
+  Proof.
+    intros Hstep. induction vs as [|v vs IH]; intros a Hin; simpl; [ring|].
+    rewrite IH; [|intros; apply Hin; now right]. rewrite Hstep; [ring|]. apply Hin. now left.
+  Qed.
+
+  Definition lin_blocks (s : side) : F S := fsum (map (fun v => ev S (piece_lin_key tests (v, s) E)) tests).
+
+  Lemma lin_blocks_null s : fsum (map (fun v => ev S (nullT E (v, s) te)) tests) = lin_blocks s.
+  Proof. unfold lin_blocks. apply fsum_ext. intros v. apply nullT_piece_lin_key. Qed.
+
+  (* the two sides together: additivity in the restricted test symbols *)
+  Lemma lin_blocks_total : addl te E -> lin_blocks SMinus + lin_blocks SPlus = ev S E.
+  Proof.
+    intros H. rewrite (H S).
+    pose proof (fsum_rs_of S (fun r => ev S (nullT E r te)) tests) as X. fold te in X. rewrite X.
+    rewrite fsum_add, !lin_blocks_null. reflexivity.
+  Qed.
+
+  Lemma lin_blocks_piece s : ms s -> addl te E -> vanl te E -> lin_blocks s = ev S (piece_lin tests s E).
+  Proof.
+    intros Hs Ha Hv. symmetry. unfold piece_lin.
+    change (ev S (zero_out ?a ?b)) with (evw S fl nr (zero_out a b)). rewrite evw_zero_out.
+    rewrite (side_sum S tests s E fl nr Hs Ha Hv).
+    rewrite <- lin_blocks_null. apply fsum_ext. intros v.
+    change (ev S ?t) with (evw S fl nr t). now rewrite evw_nullT.
+  Qed.
+End LinearMulti.
+
+Theorem split_lin_blocks (S : dfield) c tests e0 :
+  okc c e0 = true -> lin_flip c = true ->
+  (fields_on SMinus (piece_lin tests SMinus (iden e0)) = true ->
+   ev S (read_minus (oiden (bnd_minus (split_lin c tests e0)))) = lin_blocks S tests (iden e0) SMinus) /\
+  (fields_on SPlus (piece_lin tests SPlus (iden e0)) = true ->
+   ev S (read_plus (oiden (bnd_plus (split_lin c tests e0)))) = lin_blocks S tests (iden e0) SPlus) /\
+  ints (split_lin c tests e0) = [].
+Proof.
+  intros Hok Hf. unfold split_lin.
+  pose proof (expand_jfree c e0 Hok) as J. pose proof (iden_expand c e0) as I.
+  repeat split.
+  - intros G.
+    pose proof (fold_lin_sum S c tests (expand c e0) (Vm S)
+                  (fun v => ev S (nullT (iden e0) (v, SMinus) (rs_of tests)))) as H.
+    unfold Vm in H. rewrite H; [| intros; apply (step_lin_Vm S c tests (iden e0)); auto | auto].
+    rewrite lin_blocks_null. simpl. change (ev S (read_minus (TZ 0))) with (f0 S). apply (Radd_0_l (F_R (Fth S))).
+  - intros G.
+    pose proof (fold_lin_sum S c tests (expand c e0) (Vp S)
+                  (fun v => ev S (nullT (iden e0) (v, SPlus) (rs_of tests)))) as H.
+    unfold Vp in H. rewrite H; [| intros; apply (step_lin_Vp S c tests (iden e0)); auto | auto].
+    rewrite lin_blocks_null. simpl. change (ev S (read_plus (TZ 0))) with (f0 S). apply (Radd_0_l (F_R (Fth S))).
+  - generalize (expand c e0) (rs_of tests). intros e te.
+    assert (G : forall vs a, ints (fold_left (fun a v => step_lin c e te a v) vs a) = ints a).
+    { induction vs as [|v vs IH]; intros a; simpl; auto. rewrite IH. apply step_lin_ints. }
+    rewrite G. reflexivity.
+Qed.
+
+Theorem split_lin_conserves_multi (S : dfield) c tests e0 :
+  okc c e0 = true -> lin_flip c = true ->
+  fields_on SMinus (piece_lin tests SMinus (iden e0)) = true ->
+  fields_on SPlus (piece_lin tests SPlus (iden e0)) = true ->
+  addl (rs_of tests) (iden e0) ->
+  fadd S (ev S (read_minus (oiden (bnd_minus (split_lin c tests e0)))))
+         (ev S (read_plus (oiden (bnd_plus (split_lin c tests e0)))))
+  = ev S (iden e0).
+Proof.
+  intros Hok Hf Gm Gp Ha. destruct (split_lin_blocks S c tests e0 Hok Hf) as [Hm [Hp _]].
+  rewrite Hm, Hp; auto. now apply lin_blocks_total.
+Qed.
+
+Theorem split_lin_faces_are_pieces (S : dfield) c tests e0 :
+  okc c e0 = true -> lin_flip c = true ->
+  addl (rs_of tests) (iden e0) -> vanl (rs_of tests) (iden e0) ->
+  (fields_on SMinus (piece_lin tests SMinus (iden e0)) = true ->
+   ev S (read_minus (oiden (bnd_minus (split_lin c tests e0)))) = ev S (piece_lin tests SMinus (iden e0))) /\
+  (fields_on SPlus (piece_lin tests SPlus (iden e0)) = true ->
+   ev S (read_plus (oiden (bnd_plus (split_lin c tests e0)))) = ev S (piece_lin tests SPlus (iden e0))).
+Proof.
+  intros Hok Hf Ha Hv. destruct (split_lin_blocks S c tests e0 Hok Hf) as [Hm [Hp _]].
+  split; intros G.
+  - rewrite Hm; auto. apply lin_blocks_piece; unfold ms; auto.
+  - rewrite Hp; auto. apply lin_blocks_piece; unfold ms; auto.
+Qed.
+
+(* ================================================================== why the order "reverse, then accumulate" matters *)
+(* a variant of the round (seeded change C06-n1): the normal is reversed AFTER the new block has been
+   added to what the plus face already has, so every later block reverses the earlier ones again *)
+Definition step_bil_late_flip (e : iex) (tr te : list rsym) (a : pieces) (u v : string) : pieces :=
+  let um := (u, SMinus) in let up := (u, SPlus) in
+  let vm := (v, SMinus) in let vp := (v, SPlus) in
+  let n1 := imap (rename2 um vm) (nullify (nullify e um tr) vm te) in
+  let a := if zerob n1 then a
+           else {| bnd_minus := addo n1 (bnd_minus a); bnd_plus := bnd_plus a; ints := ints a |} in
+  let n2 := imap (rename2 up vp) (nullify (nullify e up tr) vp te) in
+  let a := if zerob n2 then a
+           else {| bnd_minus := bnd_minus a;
+                   bnd_plus := match addo n2 (bnd_plus a) with Some x => Some (imap flipn x) | None => None end;
+                   ints := ints a |} in
+  let n3 := nullify (nullify e um tr) vp te in
+  let a := if zerob n3 then a
+           else {| bnd_minus := bnd_minus a; bnd_plus := bnd_plus a; ints := upd key2_eqb (um, vp) n3 (ints a) |} in
+  let n4 := nullify (nullify e up tr) vm te in
+  if zerob n4 then a
+  else {| bnd_minus := bnd_minus a; bnd_plus := bnd_plus a; ints := upd key2_eqb (up, vm) n4 (ints a) |}.
+
+Definition split_bil_late_flip (c : cfg) (trials tests : list string) (e0 : iex) : pieces :=
+  let e := expand c e0 in
+  let tr := rs_of trials in
+  let te := rs_of tests in
+  fold_left (fun a u => fold_left (fun a v => step_bil_late_flip e tr te a u v) tests a) trials no_pieces.
+
+Section LateFlip.
+  Variable S : dfield.
+  Add Field SF19 : (Fth S).
+  Infix "+" := (fadd S). Infix "*" := (fmul S). Infix "-" := (fsub S).
+  Open Scope string_scope.
+
+  (*  plus(u1) * plus(v) * n_0  +  plus(u2) * plus(v)   on the product space (u1, u2) x v  *)
+  Definition ex_two_blocks : iex :=
+    IAdd (IMul (IMul (IT (TAt (AFld true "u1" 0 SPlus []))) (IT (TAt (AFld true "v" 0 SPlus [])))) (IT (TAt (ANormal SNone 0))))
+         (IMul (IT (TAt (AFld true "u2" 0 SPlus []))) (IT (TAt (AFld true "v" 0 SPlus [])))).
+
+  Lemma tzero_flipn t : tzero (flipn t) = tzero t.
+  Proof.
+    unfold flipn. induction t; simpl; auto; try (now rewrite IHt1, IHt2); try (now rewrite IHt1).
+    - destruct a; reflexivity.
+    - destruct n; auto.
+  Qed.
+
+  Lemma zerob_flipn e : zerob (imap flipn e) = zerob e.
+  Proof. induction e; simpl; auto using tzero_flipn; now rewrite IHe1, IHe2. Qed.
+
+  (* one (trial, test) pair: the two orders agree *)
+  Lemma late_flip_single_pair_same c u v e0 :
+    bnd_plus (split_bil_late_flip c [u] [v] e0) = bnd_plus (split_bil c [u] [v] e0).
+  Proof.
+    unfold split_bil_late_flip, split_bil. simpl fold_left. unfold step_bil_late_flip, step_bil. cbv zeta.
+    rewrite zerob_flipn.
+    repeat match goal with |- context [if zerob ?x then _ else _] => destruct (zerob x) end; reflexivity.
+  Qed.
+
+  (* two pairs: the first block comes out with the un-reversed normal; the model of the code gives the piece *)
+  Lemma late_flip_refuted c :
+    ev S (read_plus (oiden (bnd_plus (split_bil_late_flip c ["u1"; "u2"] ["v"] ex_two_blocks))))
+    = fld S "u2" 0 SPlus * fld S "v" 0 SPlus - fld S "u1" 0 SPlus * fld S "v" 0 SPlus * nrm S SNone 0 /\
+    ev S (read_plus (oiden (bnd_plus (split_bil c ["u1"; "u2"] ["v"] ex_two_blocks))))
+    = fld S "u2" 0 SPlus * fld S "v" 0 SPlus + fld S "u1" 0 SPlus * fld S "v" 0 SPlus * nrm S SNone 0 /\
+    ev S (piece ["u1"; "u2"] ["v"] SPlus SPlus (iden ex_two_blocks))
+    = fld S "u2" 0 SPlus * fld S "v" 0 SPlus + fld S "u1" 0 SPlus * fld S "v" 0 SPlus * nrm S SNone 0.
+  Proof.
+    repeat split.
+    - destruct c as [a b]. destruct a, b; vm_compute bnd_plus; unfold ev; simpl; ring.
+    - destruct c as [a b]. destruct a, b; vm_compute bnd_plus; unfold ev; simpl; ring.
+    - vm_compute piece. unfold ev. simpl. ring.
+  Qed.
+End LateFlip.
+
+(* ================================================================== the code after the repairs, product spaces *)
+Section RepairedMulti.
+  Variable S : dfield.
+  Notation c := cfg_repaired.
+
+  Theorem rep_bnd_minus_blocks trials tests e0 :
+    fields_on SMinus (piece trials tests SMinus SMinus (iden e0)) = true ->
+    ev S (read_minus (oiden (bnd_minus (split_bil c trials tests e0)))) = blocks S trials tests (iden e0) SMinus.
+  Proof. apply split_bil_bnd_minus_blocks. apply okc_repaired. Qed.
+
+  Theorem rep_bnd_plus_blocks trials tests e0 :
+    fields_on SPlus (piece trials tests SPlus SPlus (iden e0)) = true ->
+    ev S (read_plus (oiden (bnd_plus (split_bil c trials tests e0)))) = blocks S trials tests (iden e0) SPlus.
+  Proof. apply split_bil_bnd_plus_blocks. apply okc_repaired. Qed.
+
+  Theorem rep_faces_are_pieces trials tests e0 :
+    addl (rs_of trials) (iden e0) -> addl (rs_of tests) (iden e0) ->
+    vanl (rs_of trials) (iden e0) -> vanl (rs_of tests) (iden e0) ->
+    (fields_on SMinus (piece trials tests SMinus SMinus (iden e0)) = true ->
+     ev S (read_minus (oiden (bnd_minus (split_bil c trials tests e0)))) = ev S (piece trials tests SMinus SMinus (iden e0))) /\
+    (fields_on SPlus (piece trials tests SPlus SPlus (iden e0)) = true ->
+     ev S (read_plus (oiden (bnd_plus (split_bil c trials tests e0)))) = ev S (piece trials tests SPlus SPlus (iden e0))).
+  Proof. apply split_bil_faces_are_pieces. apply okc_repaired. Qed.
+
+  Theorem rep_lin_blocks tests e0 :
+    (fields_on SMinus (piece_lin tests SMinus (iden e0)) = true ->
+     ev S (read_minus (oiden (bnd_minus (split_lin c tests e0)))) = lin_blocks S tests (iden e0) SMinus) /\
+    (fields_on SPlus (piece_lin tests SPlus (iden e0)) = true ->
+     ev S (read_plus (oiden (bnd_plus (split_lin c tests e0)))) = lin_blocks S tests (iden e0) SPlus) /\
+    ints (split_lin c tests e0) = [].
+  Proof. apply split_lin_blocks; [apply okc_repaired|reflexivity]. Qed.
+
+  Theorem rep_lin_conserves_multi tests e0 :
+    fields_on SMinus (piece_lin tests SMinus (iden e0)) = true ->
+    fields_on SPlus (piece_lin tests SPlus (iden e0)) = true ->
+    addl (rs_of tests) (iden e0) ->
+    fadd S (ev S (read_minus (oiden (bnd_minus (split_lin c tests e0)))))
+           (ev S (read_plus (oiden (bnd_plus (split_lin c tests e0)))))
+    = ev S (iden e0).
+  Proof. apply split_lin_conserves_multi; [apply okc_repaired|reflexivity]. Qed.
+
+  Theorem rep_lin_faces_are_pieces tests e0 :
+    addl (rs_of tests) (iden e0) -> vanl (rs_of tests) (iden e0) ->
+    (fields_on SMinus (piece_lin tests SMinus (iden e0)) = true ->
+     ev S (read_minus (oiden (bnd_minus (split_lin c tests e0)))) = ev S (piece_lin tests SMinus (iden e0))) /\
+    (fields_on SPlus (piece_lin tests SPlus (iden e0)) = true ->
+     ev S (read_plus (oiden (bnd_plus (split_lin c tests e0)))) = ev S (piece_lin tests SPlus (iden e0))).
+  Proof. apply split_lin_faces_are_pieces; [apply okc_repaired|reflexivity]. Qed.
+End RepairedMulti.
